@@ -5,8 +5,8 @@ From RsM Require Import Model.Failsafe Model.FailsafeSpec Proofs.FailsafeFacts.
 Import ListNotations.
 Open Scope N_scope.
 
-Ltac sp := cbn [s_fs s_bc s_win s_pase s_fabs s_nets s_kv s_key s_root s_nkeys k_fabs k_net
-                set_fs set_bc set_win set_pase set_fabs set_nets set_kv boot fst snd] in *.
+Ltac sp := cbn [s_fs s_bc s_win s_pase s_fabs s_nets s_kv s_key s_root s_nkeys s_case k_fabs k_net
+                set_fs set_bc set_win set_pase set_fabs set_nets set_kv set_case boot fst snd] in *.
 
 Ltac inv_pair :=
   repeat match goal with
@@ -15,39 +15,32 @@ Ltac inv_pair :=
   end.
 
 (** ** expire *)
-Lemma expire_idle : forall st keep, s_fs st = Idle -> expire st keep = Some st.
-Proof. intros st keep H. unfold expire. rewrite H. reflexivity. Qed.
+Lemma expire_idle : forall st c, s_fs st = Idle -> expire st c = st.
+Proof. intros st c H. unfold expire. rewrite H. reflexivity. Qed.
 
-Lemma expire_total : forall st keep, Inv st -> exists st', expire st keep = Some st'.
-Proof.
-  intros st keep (_ & _ & _ & Hfs). unfold expire. destruct (s_fs st) as [|f fl]; [eauto|].
-  destruct Hfs as [_ Hex]. destruct (f =? 0) eqn:E; [eauto|].
-  apply N.eqb_neq in E. specialize (Hex E). destruct (fget f (s_fabs st)) eqn:G; [eauto|]. exfalso; apply Hex; reflexivity.
-Qed.
-
-Lemma expire_spec : forall st keep st',
-  Inv st -> expire st keep = Some st' ->
+Lemma expire_spec : forall st c,
+  Inv st ->
+  let st' := expire st c in
   s_fs st' = Idle /\ s_bc st' = 0 /\ s_kv st' = s_kv st /\ ram_synced st' /\
   s_win st' = s_win st /\ s_key st' = s_key st /\ s_root st' = s_root st /\
   s_nkeys st' = s_nkeys st /\
   fget 0 (s_fabs st') = None /\
   match s_pase st' with PLive pf => s_fs st = Idle /\ s_pase st = PLive pf | _ => True end.
 Proof.
-  intros st keep st' (H0 & Hk0 & Hp & Hfs) He. unfold expire in He.
+  intros st c (H0 & Hk0 & Hp & Hfs). unfold expire.
   destruct (s_fs st) as [|f fl] eqn:Efs.
-  - inversion He; subst st'. destruct Hfs as [Hs Hb]. rewrite Efs.
+  - destruct Hfs as [Hs Hb]. cbn zeta. rewrite Efs.
     repeat split; auto; try apply Hs.
     destruct (s_pase st); auto.
-  - destruct Hfs as [Hoth Hex].
-    assert (Hp' : match remove_pase (s_pase st) keep with PLive _ => False | _ => True end).
-    { unfold remove_pase. destruct keep; destruct (s_pase st); auto. }
+  - destruct Hfs as [Hoth Hex]. cbn zeta.
+    assert (Hp' : match remove_pase (s_pase st) (is_sp c) with PLive _ => False | _ => True end).
+    { unfold remove_pase. destruct (is_sp c); destruct (s_pase st); auto. }
     destruct (f =? 0) eqn:E0.
-    + apply N.eqb_eq in E0. subst f. inversion He; subst st'. unfold ram_synced, cfg_eq. sp.
+    + apply N.eqb_eq in E0. subst f. unfold ram_synced, cfg_eq. sp.
       repeat split; auto.
       * intro i. destruct (N.eq_dec i 0) as [->|Hi]; [congruence|]. apply Hoth. exact Hi.
-      * destruct (remove_pase (s_pase st) keep); auto; contradiction.
-    + apply N.eqb_neq in E0. destruct (fget f (s_fabs st)) as [ff|] eqn:Ef; [|discriminate].
-      inversion He; subst st'. sp.
+      * destruct (remove_pase (s_pase st) (is_sp c)); auto; contradiction.
+    + apply N.eqb_neq in E0.
       assert (Hsync : cfg_eq (match fget f (k_fabs (s_kv st)) with
                               | Some kf => fset kf (fdel f (s_fabs st))
                               | None => fdel f (s_fabs st) end) (k_fabs (s_kv st))).
@@ -63,16 +56,16 @@ Proof.
           + apply N.eqb_neq in Ei. apply Hoth. congruence. }
       unfold ram_synced. sp. repeat split; auto.
       * rewrite (Hsync 0). exact Hk0.
-      * destruct (remove_pase (s_pase st) keep); auto; contradiction.
+      * destruct (remove_pase (s_pase st) (is_sp c)); auto; contradiction.
 Qed.
 
-Lemma expire_inv : forall st keep st', Inv st -> expire st keep = Some st' -> Inv st'.
+Lemma expire_inv : forall st c, Inv st -> Inv (expire st c).
 Proof.
-  intros st keep st' HI He. pose proof (expire_spec _ _ _ HI He) as
-    (Hfs & Hbc & Hkv & Hs & _ & _ & _ & _ & H0 & Hp).
+  intros st c HI. pose proof (expire_spec st c HI) as
+    (Hfs & Hbc & Hkv & Hs & _ & _ & _ & _ & H0 & Hp). cbn zeta in *.
   destruct HI as (_ & Hk0 & Hpk & Hfs0).
   unfold Inv. rewrite Hfs, Hkv. repeat split; auto; try apply Hs.
-  unfold pase_ok. rewrite Hfs. destruct (s_pase st') as [|pf|pf]; auto.
+  unfold pase_ok. rewrite Hfs. destruct (s_pase (expire st c)) as [|pf|pf]; auto.
   destruct Hp as [Hi Hpp]. unfold pase_ok in Hpk. rewrite Hpp, Hi in Hpk. exact Hpk.
 Qed.
 
@@ -109,14 +102,14 @@ Lemma sess_ctx_pase : forall st s n, sess_ctx st s = Some (n, true) -> s_pase st
 Proof.
   intros st s n H. destruct s; cbn in H.
   - destruct (s_pase st); inversion H; auto.
-  - inversion H.
+  - destruct (cget fab (s_case st)); inversion H.
 Qed.
 
 Lemma sess_ctx_case : forall st s n, sess_ctx st s = Some (n, false) -> s = SC n.
 Proof.
   intros st s n H. destruct s; cbn in H.
   - destruct (s_pase st); inversion H.
-  - inversion H; auto.
+  - destruct (cget fab (s_case st)); inversion H; auto.
 Qed.
 
 Lemma allowed_case : forall st n, allowed st n false = true -> fget n (s_fabs st) <> None.
@@ -170,7 +163,7 @@ Qed.
 Lemma step_inv_arm : forall st s t bc, Inv st -> Inv (fst (step st (OArm s t bc))).
 Proof.
   intros st s t bc HI. unfold step. dm; cbn [fst]; try assumption.
-  all: try (eapply expire_inv; eassumption).
+  all: try (apply expire_inv; assumption).
   - apply negb_false_iff in Heqb0.
     pose proof (fun H => ctx_fabric_present _ _ _ _ HI Heqo Heqb0 H Heqf) as Hpres.
     destruct HI as (H0 & Hk0 & Hp & Hfs). rewrite Heqf in Hfs. destruct Hfs as [[Hs Hn] Hb].
@@ -315,7 +308,7 @@ Lemma complete_body_cases : forall st sfab p fault st' r l,
        st' = mkState Idle 0 false PAbsent (s_fabs st) (mkNets true (n_ids (s_nets st)))
                      (kv_apply (kv_apply (s_kv st) (KStoreFab fb))
                                (KStoreNet (mkNets true (n_ids (s_nets st)))))
-                     (s_key st) (s_root st) (s_nkeys st)))).
+                     (s_key st) (s_root st) (s_nkeys st) (s_case st)))).
 Proof.
   intros st sfab p fault st' r l H. unfold complete_body in H.
   destruct (with_armed st sfab) as [f fl| |] eqn:Ea; try (inversion H; subst; left; repeat split; congruence).
@@ -348,7 +341,7 @@ Lemma inv_after_commit : forall st sfab fl fb,
   let n := mkNets true (n_ids (s_nets st)) in
   let st' := mkState Idle 0 false PAbsent (s_fabs st) n
                      (kv_apply (kv_apply (s_kv st) (KStoreFab fb)) (KStoreNet n))
-                     (s_key st) (s_root st) (s_nkeys st) in
+                     (s_key st) (s_root st) (s_nkeys st) (s_case st) in
   Inv st' /\ ram_synced st'.
 Proof.
   intros st sfab fl fb (H0 & Hk0 & Hp & Hfs) Hf Hnz Hg n st'. pose proof (fget_idx _ _ _ Hg) as Hidx.
@@ -404,16 +397,17 @@ Qed.
 
 Lemma step_inv_misc : forall st, Inv st ->
   Inv (fst (step st OTimeout)) /\ Inv (fst (step st ORestart)) /\ Inv (fst (step st ONewPase)) /\
-  forall s, Inv (fst (step st (ORevoke s))).
+  (forall s, Inv (fst (step st (ORevoke s)))) /\ (forall f, Inv (fst (step st (ONewCase f)))).
 Proof.
-  intros st HI. split; [|split; [|split]].
-  - unfold step. destruct (expire st false) eqn:E; cbn [fst]; auto. eapply expire_inv; eauto.
+  intros st HI. split; [|split; [|split; [|split]]].
+  - unfold step. cbn [fst]. apply expire_inv. exact HI.
   - unfold step; cbn [fst]. apply boot_inv. apply inv_kv0. exact HI.
   - unfold step; cbn [fst]. destruct HI as (H0 & Hk0 & Hp & Hfs). apply inv_intro; sp; auto.
     unfold pase_ok; sp. destruct (s_fs st); auto.
   - intros s. unfold step. dm; cbn [fst]; auto.
-    pose proof (expire_inv _ _ _ HI Heqo0) as (H0 & Hk0 & Hp & Hfs).
+    pose proof (expire_inv st (Some s) HI) as (H0 & Hk0 & Hp & Hfs).
     apply inv_intro; sp; auto.
+  - intros f. unfold step; cbn [fst]. destruct HI as (H0 & Hk0 & Hp & Hfs). apply inv_intro; sp; auto.
 Qed.
 
 Theorem step_inv : forall st o,
@@ -430,6 +424,7 @@ Proof.
   - apply step_inv_net; eauto.
   - apply step_inv_complete; auto.
   - apply step_inv_cut; auto.
+  - apply step_inv_misc; auto.
   - apply step_inv_misc; auto.
   - apply step_inv_misc; auto.
   - apply step_inv_misc; auto.
